@@ -304,7 +304,9 @@ func runConcScenarios(t *testing.T, c *Collector, scs []*ConcScenario) {
 			c.count("distinct_outcomes", int64(len(e.outcomes)))
 			if delta == 0 {
 				c.count("execs:"+sc.Name, e.execs)
-				c.count("scenarios", 1)
+				if c.job.Shard == 0 {
+					c.count("scenarios", 1)
+				}
 			}
 			if c.res.InfraError != "" {
 				return
